@@ -216,7 +216,7 @@ CHECKS = {
         'note': 'Not a proof. The shipped file has no dictionaries, so the dictionary path is exercised by 300 (3000 thorough) seeded SYNTHETIC KyTea '
                 'binaries (1-3 windows, 1-4 length buckets, 0-3 dictionaries with membership masks) written by an independent writer; their converted '
                 'content and scores are compared with what the generated file says. The known answer for the shipped file is a regression oracle.',
-        'technique': 'bounded sweep of the real reader/converter on one model file with a recorded known answer (labelled stand-in, not proof)',
+        'technique': 'bounded sweep of the real reader/converter: the shipped model file (every truncation, recorded known answer) and seeded synthetic KyTea binaries with an independent reference (labelled stand-in, not proof)',
     },
     'C20': {
         'level': 'exploration',
@@ -234,9 +234,10 @@ CHECKS = {
         'level': 'proof',
         'text': 'The predictor unit is verified under BOTH resolutions of the fix-weight-length feature (the extractor evaluates the cfg attributes) '
                 'against the SAME contrib-based contracts, so the two layouts are observationally equal at every call site; the cache feature\'s '
-                'id arithmetic and table lookup are proved. Thorough tier adds a bounded two-build comparison of the real crate.',
+                'id arithmetic and table lookup are proved. Both tiers add a bounded two-build comparison of the real crate.',
         'design_ref': 'DESIGN.md section 5.C13',
-        'note': 'Other axes (charwise-pma, portable-simd, std, cache table contents) are not under contract.',
+        'note': 'Other axes (charwise-pma, portable-simd, std, cache table contents) are not under contract; both tiers additionally build the real crate twice '
+                '(default features vs. std+tag-prediction only) and compare 1200 seeded outcomes (bounded).',
         'technique': TECH + '; same contracts discharged under two cfg resolutions',
     },
     'C14': {
@@ -257,8 +258,8 @@ CHECKS = {
         'design_ref': 'DESIGN.md section 5.C18',
         'note': 'Covers: Sentence accessors/iterators, both parsers, write_tokenized_text (as_mut_vec bytes proved valid UTF-8), KyteaWsConstFilter, '
                 'SplitLinebreaksFilter, predictor kernel, cached type scorer, predict_tags, and the automaton-driven scorers (against an assumed '
-                'daachorse iterator contract). Not covered: grapheme filter, write_partial_annotation_text, feature configurations other than default '
-                'and fix-weight-length off. Both tiers also run the sweeps on a build with debug assertions (library UB checks on).',
+                'daachorse iterator contract). Not covered: grapheme filter (sweep with known-answer clusters only), feature configurations other than default '
+                'and fix-weight-length off; write_partial_annotation_text contains no unchecked operation (it is proved total in W_pawriter under C04). Both tiers also run the sweeps on a build with debug assertions (library UB checks on).',
         'technique': TECH + '; unchecked -> checked twin with bounds precondition',
     },
 }
